@@ -385,7 +385,17 @@ func coreWideArith(m map[string]string) error {
 	} else {
 		rnd := rand.New(rand.NewSource(Seed()*71 + 29))
 		n := argInt(m, "n", 4000)
-		for i := 0; i < n; i++ {
+		// every operator on every pair of special values first: NaN is equal to nothing (itself included) and
+		// ordered with nothing, infinities absorb, zeros keep their sign (IEEE-754)
+		specials := []float64{math.NaN(), math.Inf(1), math.Inf(-1), 0, math.Copysign(0, -1), 1, -2.5}
+		for _, a := range specials {
+			for _, b := range specials {
+				for _, op := range wideOps {
+					evs = append(evs, &wideEvent{ID: len(evs) + 1, Op: op, Form: "var", A: wideTok(a), B: wideTok(b), Exp: wideExpected(op, a, b)})
+				}
+			}
+		}
+		for i := len(evs); i < n; i++ {
 			a, b := wideOperand(rnd), wideOperand(rnd)
 			op := wideOps[rnd.Intn(len(wideOps))]
 			e := &wideEvent{ID: i + 1, Op: op, Form: "var", A: wideTok(a), B: wideTok(b)}
